@@ -1,6 +1,6 @@
 #!/bin/bash
 # lead tool: run the quick tier of the given checks (default: all), one line per check
-cd /verif
+cd "$(dirname "$0")/.."
 props=${@:-$(ls checks | sed 's/.py//' | sort)}
 for p in $props; do
   s=$(date +%s)
